@@ -35,6 +35,7 @@ Entry(r, idx, t, forus) ==
    ip |-> IF Has(r, "ip") THEN r.ip ELSE "",
    at |-> t, ttl |-> r.ttl, exp |-> t + LifeMs(r.ttl), fl |-> r.fl, forus |-> forus,
    vexp |-> t + LifeMs(r.ttl),   \* earliest instant from which the record MAY be treated as gone (verify)
+   vdl |-> 0,                    \* deadline of the verify request that shortened this copy (0: none)
    marks |-> {}]
 
 SameRRSet(e, r, idx) == e.ty = r.ty /\ e.nk = r.n.k /\ (IsAddrTy(r.ty) => e.ifx = idx)
@@ -79,8 +80,8 @@ Shorten(tab, instk, deadline, t) ==
       hosts == {tab[id].tk : id \in {x \in DOMAIN tab : srv(x)}}
       adr(id) == IsAddrTy(id[1]) /\ id[2] \in hosts
   IN [id \in DOMAIN tab |->
-        IF srv(id) /\ tab[id].exp > deadline THEN [tab[id] EXCEPT !.exp = deadline, !.vexp = IF @ < deadline THEN @ ELSE deadline]
-        ELSE IF adr(id) /\ tab[id].vexp > deadline THEN [tab[id] EXCEPT !.vexp = deadline]
+        IF srv(id) /\ tab[id].exp > deadline THEN [tab[id] EXCEPT !.exp = deadline, !.vexp = IF @ < deadline THEN @ ELSE deadline, !.vdl = deadline]
+        ELSE IF adr(id) /\ tab[id].vexp > deadline THEN [tab[id] EXCEPT !.vexp = deadline, !.vdl = deadline]
         ELSE tab[id]]
 
 (* stop_browse: the PTRs of the type are forgotten (a later browse of the    *)
